@@ -227,8 +227,8 @@ where
         if area.is_zero_sized()
             || area.top_left.x < 0
             || area.top_left.y < 0
-            || area.top_left.x as u32 + area.size.width > self.size.width
-            || area.top_left.y as u32 + area.size.height > self.size.height
+            || (area.top_left.x as u32).saturating_add(area.size.width) > self.size.width
+            || (area.top_left.y as u32).saturating_add(area.size.height) > self.size.height
         {
             return Ok(());
         }
